@@ -1,7 +1,7 @@
 // C14 implementation driver: the typed model classes and, next to them, the untyped virtual interface
 // (lm::ngram::LoadVirtual -> lm::base::Model) on the same file.
 //   c14_driver <model file> <type 0..5 | auto>
-//   c14_driver --build <arpa> <type 0..5> <binary out>      (typed constructor with config.write_mmap)
+//   c14_driver --build <arpa> <type 0..5> <binary out> [novocab]   (typed constructor with config.write_mmap)
 // stdin, one case per line:   <bos 0|1> <word hex>*        ("-" alone = no words, "e" = the empty word)
 // stdout, one line per case:  <id>:<prob bits>:<ngram_length> ... (one per word, then one for </s>) | virt=<ok|MISMATCH ...>
 // The typed chain is FullScore with the class selected by <type> (auto = the header's type for a binary
@@ -90,8 +90,10 @@ template <class M> int Run(const char *file, ModelType type) {
   return 0;
 }
 
+static bool g_include_vocab = true;
 template <class M> int Build(const char *arpa, const char *out) {
   Config config;
+  config.include_vocab = g_include_vocab;
   config.messages = NULL;
   config.arpa_complain = Config::NONE;
   config.write_mmap = out;
@@ -105,7 +107,8 @@ template <class M> int Build(const char *arpa, const char *out) {
 int main(int argc, char **argv) {
   if (argc < 3) return 2;
   try {
-    if (!std::strcmp(argv[1], "--build") && argc == 5) {   // --build <arpa> <type> <out>
+    if (!std::strcmp(argv[1], "--build") && (argc == 5 || argc == 6)) {   // --build <arpa> <type> <out> [novocab]
+      if (argc == 6 && !std::strcmp(argv[5], "novocab")) g_include_vocab = false;   // Config::include_vocab = false: no strings after the image
       switch (std::atoi(argv[3])) {
         case 0: return Build<ProbingModel>(argv[2], argv[4]);
         case 1: return Build<RestProbingModel>(argv[2], argv[4]);
